@@ -190,13 +190,17 @@ def run(ctx):
             if not const_ret:
                 continue      # delegation / computed result, not a rejection
             stores_err = any(('->error = SFE_' in s or 'sf_errno = SFE_' in s or 'sf_errno = psf->error' in s) for s in stmts)
+            # the guard itself stores what it tests: `if ((psf->error = f (...))) return`
+            stores_err = stores_err or (cond.rstrip(')').count('(psf->error = ') > 0 and ' || ' not in cond)
             ret_code = rv.startswith('SFE_') and rv != 'SFE_NO_ERROR' and f.name in RETURNS_CODE
             zero_len = cond.replace(' ', '') in ('(len==0)', '(frames==0)', '(bytes==0)')
             eof = 'read_current >= psf->sf.frames' in cond
             already = cond.strip() in ('psf->error',)
+            # a failing codec seek has recorded its error itself (decided for every function of the seek slot by C06 SEEK-ERR)
+            seek_failed = 'psf->seek(psf, ' in cond and '< 0)' in cond and ' || ' not in cond
             light = f.name in LIGHT or f.name in ('sf_error', 'sf_error_number', 'sf_format_check')
-            ok = stores_err or ret_code or zero_len or already or light
-            why = 'records error' if stores_err else 'returns error code' if ret_code else 'zero-length request' if zero_len else 'error already set' if already else 'light-weight/query function' if light else ''
+            ok = stores_err or ret_code or zero_len or already or light or seek_failed
+            why = 'records error' if stores_err else 'returns error code' if ret_code else 'zero-length request' if zero_len else 'error already set' if already else 'light-weight/query function' if light else 'failed codec seek: the seek function records the error (C06 SEEK-ERR)' if seek_failed else ''
             if eof and not stores_err:
                 zf = any(s.startswith('psf_memset(ptr, 0,') for s in stmts)
                 ok = zf and 'bytes < 0' not in cond
